@@ -101,6 +101,7 @@ def run(ctx):
             ctx.count(('T', mode, sa, se, repr(sorted(o.items(), key=str))), sa != se)
             ctx.bump('text.mode%d.%s' % (mode, got))
             problems = []
+            raw_finding = []
             if before != after:
                 problems.append('files outside the temporary directory changed: %r' %
                                 sorted(set(before) ^ set(after) or [k for k in before if before[k] != after.get(k)]))
@@ -131,18 +132,27 @@ def run(ctx):
                             problems.append('string actual not written to the temporary directory: %s' % fa)
                         elif os.path.exists(fa):
                             content = open(fa, encoding='utf-8', newline='').read()
+                            raw_lines = sa.splitlines()
+                            if raw_lines and raw_lines[-1] == '':
+                                raw_lines = raw_lines[:-1]
                             want_lines = sa.splitlines()
                             if pp:
                                 want_lines = pp(want_lines)
                             if want_lines and want_lines[-1] == '':
                                 want_lines = want_lines[:-1]
-                            # reading adopted (DESIGN 7 C15): the lines handed to the comparison, i.e. after
-                            # preprocess and after dropping remove_lines lines
                             want_lines = [l for l in want_lines
                                           if not any(r in l for r in (o['remove_lines'] or []))]
-                            if content.split('\n') != want_lines and not (content == '' and want_lines == []):
-                                problems.append('actual-raw file does not hold the actual lines: %r vs %r'
-                                                % (content.split('\n'), want_lines))
+                            got_lines = content.split('\n')
+                            if got_lines != raw_lines and not (content == '' and raw_lines == []):
+                                # the property: the file holds the actual content (up to line ends).  The code writes
+                                # the lines handed to the comparison - after preprocess and remove_lines: the
+                                # recorded finding c15-raw-actual-after-removal; anything else is a new violation
+                                if got_lines == want_lines or (content == '' and want_lines == []):
+                                    raw_finding.append('actual-raw file holds the processed lines %r, the actual string has %r'
+                                                       % (got_lines, raw_lines))
+                                else:
+                                    problems.append('actual-raw file does not hold the actual lines: %r vs %r'
+                                                    % (got_lines, raw_lines))
                     elif fa != actp:
                         problems.append('file actual: message names %s instead of %s' % (fa, actp))
                 exclusions = bool(o['ignore_substrings'] or o['ignore_patterns'] or o['remove_lines']
@@ -198,6 +208,8 @@ def run(ctx):
                 problems.append('RecursionError path wrote %r' % files)   # the RecursionError itself is C04's finding
             for pr in problems:
                 ctx.fail(case, pr)
+            for pr in raw_finding:
+                ctx.fail(case, pr, finding='c15-raw-actual-after-removal')
             for f in os.listdir(tmp):
                 os.remove(os.path.join(tmp, f))
             for p in (refp, actp):
